@@ -325,8 +325,11 @@ def attribute(v):
         if not getattr(CF, pred)(p0):
             continue
         vecs = [] if case.get("vec") is None else [case["vec"]]
+        saved = dict(_fired)  # the counterfactual re-run must not inflate the reported pattern-firing counters
         with getattr(CF, cf)():
             again = run_one(case["text"], case.get("fname", "main"), case["args"], vecs, R.new_result())
+        _fired.clear()
+        _fired.update(saved)
         if not [a for a in again if a["case"].get("spec") == spec]:
             return key
     return None
